@@ -622,18 +622,27 @@ def check_primitive_siblings(ctx):
     from . import c05
     repo = ctx.repo
     c05.check_codecs(ctx, repo.cls('Int'))
-    dc = repo.cls('Data').methods.get('_compile')
-    ok = False
-    for n in ast.walk(dc.node):
-        if isinstance(n, ast.Assign) and canon(n.targets[0]) == 'self.struct_code':
-            ok = canon(n.value) == "('%is' % self.byte_count)"
-            st = stmt_text(n)
-            if ok:
-                ctx.holds('R2-struct-block', dc, st, "a constant-size byte string is the struct code '<n>s'", n.lineno, clause='d')
-            else:
-                ctx.violation('R2-struct-block', dc, st, "the struct code of Data(n) must be '%is' % byte_count", n.lineno, clause='d')
-    if not ok and not any(o.rule == 'R2-struct-block' and o.function.endswith('Data._compile') for o in ctx.obs):
-        ctx.undecided('R2-struct-block', dc, 'Data._compile', 'struct_code assignment not found', dc.node.lineno, clause='d')
+    dci = repo.cls('Data')
+    dc = dci.methods.get('_compile')
+    seen = False
+    done = set()
+    for p in repo.walker(max_paths=ctx.max_paths, inline_depth=ctx.depth, keep={'_compile_impl'}).paths(dc.node, cls=dci):
+        if p.raises():
+            continue
+        for e in p.effects:
+            if e.kind == 'store_attr' and canon(e.obj) == 'self' and e.name == 'struct_code':
+                seen = True
+                v = canon(e.raw if e.raw is not None else e.value)
+                if v in done:
+                    continue
+                done.add(v)
+                st = 'self.struct_code = %s' % v
+                if v == "('%is' % self.byte_count)":
+                    ctx.holds('R2-struct-block', dc, st, "a constant-size byte string is the struct code '<n>s'", e.lineno, clause='d')
+                else:
+                    ctx.violation('R2-struct-block', dc, st, "the struct code of Data(n) must be '%is' % byte_count", e.lineno, clause='d')
+    if not seen:
+        ctx.undecided('R2-struct-block', dc, 'Data._compile', 'no path stores struct_code', dc.node.lineno, clause='d')
 
 
 def check(ctx):
